@@ -26,6 +26,21 @@ import (
 //	     mode r: URL = &url.URL{Path: PathUnescape(raw), RawPath: raw}
 //	     <urlpath>/<esc> are URL.Path / URL.EscapedPath() as net/url computed them when the op was
 //	     generated; Run recomputes them and refuses the op (bad-op) if they differ.
+//	     In mode p (parse succeeded) Request.RequestURI is the raw target, as net/http's server sets it.
+//	rserve <method> <kind> <arg> <target> <urlpath> <esc>
+//	     a request whose URL is REWRITTEN before the router sees it. The request is what net/http's server
+//	     builds from the request target: URL = url.ParseRequestURI(target), RequestURI = target (never
+//	     updated by anybody, as in net/http). kind:
+//	     s: http.StripPrefix(arg, router)                       (rewrites URL.Path and URL.RawPath)
+//	     w: Router.WrapHTTPHandlers(pre) where pre drops the prefix arg from URL.Path (if present) and
+//	        clears URL.RawPath
+//	     c: a global middleware (installed at creation on the routers of a case that has such an op, inert
+//	        otherwise) sets c.Req.URL.Path = arg, RawPath = "", re-dispatches with Router.HandleContext(c)
+//	        and aborts the outer chain
+//	     <urlpath>/<esc> are URL.Path / URL.EscapedPath() of the URL THE ROUTER SEES (after the rewrite);
+//	     Run observes them with a probe handler directly in front of the router and refuses the op
+//	     (bad-op) if they differ or if the router was not reached (StripPrefix answered 404 itself).
+//	     The generator only emits ops that reach the router.
 //
 // Alphabet of generated paths (12 tokens): "/", " ", "\t", U+00A0, U+2003, ".", "%2F", "%20", "a", "b", "é", 0xff.
 // The generator ENUMERATES all token strings up to a length (see pathEnumMax) and then samples
@@ -117,6 +132,69 @@ func opServe(method, mode, raw string) string {
 	return fmt.Sprintf("serve %s %s %s %s %s", hx(method), mode, hx(raw), hx(u.Path), hx(u.EscapedPath()))
 }
 
+// pathPre is the pre handler of kind w: it drops a leading path segment (a locale, a mount point) from
+// URL.Path and clears RawPath, so that EscapedPath() is computed from the new Path.
+func pathPre(prefix string) func(http.Handler) http.Handler {
+	return func(next http.Handler) http.Handler {
+		return http.HandlerFunc(func(w http.ResponseWriter, req *http.Request) {
+			if prefix != "" && strings.HasPrefix(req.URL.Path, prefix) {
+				req.URL.Path = req.URL.Path[len(prefix):]
+				req.URL.RawPath = ""
+			}
+			next.ServeHTTP(w, req)
+		})
+	}
+}
+
+// pathServerRequest builds the request as net/http's server does from the request target.
+func pathServerRequest(method, target string) (*http.Request, bool) {
+	u, err := url.ParseRequestURI(target)
+	if err != nil {
+		return nil, false
+	}
+	return &http.Request{Method: method, URL: u, RequestURI: target, Proto: "HTTP/1.1", ProtoMajor: 1, ProtoMinor: 1, Header: http.Header{}, Host: "example.com"}, true
+}
+
+// pathRewritten computes URL.Path / URL.EscapedPath() of the URL that the router sees for an rserve op
+// (by running the same wrappers around a recording handler); ok = false when the target does not parse or
+// the wrapper does not pass the request on.
+func pathRewritten(kind, arg, target string) (up, ep string, ok bool) {
+	req, good := pathServerRequest("GET", target)
+	if !good {
+		return "", "", false
+	}
+	rec := http.HandlerFunc(func(_ http.ResponseWriter, rq *http.Request) {
+		up, ep, ok = rq.URL.Path, rq.URL.EscapedPath(), true
+	})
+	switch kind {
+	case "s":
+		http.StripPrefix(arg, rec).ServeHTTP(httptest.NewRecorder(), req)
+	case "w":
+		pathPre(arg)(rec).ServeHTTP(httptest.NewRecorder(), req)
+	case "c":
+		req.URL.Path, req.URL.RawPath = arg, ""
+		rec(nil, req)
+	}
+	return
+}
+
+// opRServe returns "" when the op would not reach the router (callers then fall back to a plain serve).
+func opRServe(method, kind, arg, target string) string {
+	up, ep, ok := pathRewritten(kind, arg, target)
+	if !ok {
+		return ""
+	}
+	return fmt.Sprintf("rserve %s %s %s %s %s %s", hx(method), kind, hx(arg), hx(target), hx(up), hx(ep))
+}
+
+// opRServeOr: the rewritten request if it reaches the router, else the plain request for q.
+func opRServeOr(method, kind, arg, target, q string) string {
+	if op := opRServe(method, kind, arg, target); op != "" {
+		return op
+	}
+	return opServe(method, "p", q)
+}
+
 func opNew(strict, enc bool, intercept *string) string {
 	ic := "-"
 	if intercept != nil {
@@ -193,6 +271,27 @@ func (*pathEngine) Corpus() []Case {
 		}
 		return ops
 	}, "corpus-encoded")
+	// the URL is rewritten before the router sees it (mounted below http.StripPrefix, a pre handler installed
+	// with WrapHTTPHandlers, re-dispatch with HandleContext): matching uses the URL the router is given,
+	// Request.RequestURI still holds the original target
+	both(func(st, enc bool) []string {
+		ops := []string{opNew(st, enc, nil),
+			opReg("GET", "/about", 1), opReg("GET", "/users/a%2Fb", 2), opReg("GET", "/users/a/b", 3), opReg("GET", "/v1/about", 4),
+			opReg("GET", "/users/with%20space", 5), opReg("GET", "/users/with space", 6), opReg("GET", "/", 7), opReg("GET", "/en/about", 8), opReg("GET", "/old", 9)}
+		for _, x := range [][3]string{
+			{"s", "/v1", "/v1/about"}, {"s", "/v1", "/v1/users/a%2Fb?x=1"}, {"s", "/v1", "/v1/users/a/b"}, {"s", "/v1", "/v1"}, {"s", "/v1", "/v1/"},
+			{"s", "/v1", "/v1about"}, {"s", "/v1/", "/v1/about"}, {"s", "/a b", "/a%20b/users/with%20space"}, {"s", "/a b", "/a b/users/with space"},
+			{"w", "/en", "/en/about"}, {"w", "/en", "/en/users/with%20space"}, {"w", "/en", "/en/users/a%2Fb?x=/about"}, {"w", "/en", "/about"}, {"w", "/en", "/en"},
+			{"c", "/about", "/old"}, {"c", "/users/with space", "/old"}, {"c", "/users/a%2Fb", "/v1/about"}, {"c", "about//", "/nowhere?y"}, {"c", "", "/old"},
+		} {
+			if op := opRServe("GET", x[0], x[1], x[2]); op != "" {
+				ops = append(ops, op)
+			}
+		}
+		// the same targets served directly
+		ops = append(ops, opServe("GET", "p", "/v1/about"), opServe("GET", "p", "/en/about"), opServe("GET", "p", "/old"))
+		return ops
+	}, "corpus-rewritten")
 	// F14: InterceptAll with an un-normalised path
 	for _, ic := range []string{"/x/", "x", " /x ", "//x", "/x /", "", "  ", "/", "/nowhere"} {
 		ic := ic
@@ -221,14 +320,56 @@ func pathBlockFull(s string, st, enc bool) []string {
 		opGroup(s), opReg("GET", "/x", 2), opReg("POST", s, 3), opGroup(s), opReg("PUT", "a/", 4), "end", "end",
 		opGroup("/g"), opReg("GET", s, 5), "end",
 		opMatch("GET", s+"/x"), opMatch("POST", s+s), opMatch("POST", s+"/"+s), opMatch("PUT", s+s+"/a"), opMatch("PUT", s+"/"+s+"/a"),
-		opMatch("GET", "/g"+s), opMatch("GET", "/g/"+s), opServe("GET", "p", "/g/"+s))
+		opMatch("GET", "/g"+s), opMatch("GET", "/g/"+s), opServe("GET", "p", "/g/"+s),
+		// the same request mounted below "/g": the router sees s again (rewritten URL, RequestURI unchanged)
+		opRServeOr("GET", "s", "/g", "/g/"+s, "/g"+s), opRServeOr("GET", "w", "/g", "/g"+s, "/g"+s), opRServeOr("GET", "c", s, "/g/"+s+"?x=1", "/g"+s))
 	return ops
 }
 
 // blockLite: registered, looked up under its own spelling and the two slash variants, served once
-func pathBlockLite(s string, st, enc bool) []string {
+func pathBlockLite(s string, st, enc bool, kind string) []string {
+	rw := opRServeOr("GET", "s", "/g", "/g/"+s, "/g/"+s)
+	switch kind {
+	case "w":
+		rw = opRServeOr("GET", "w", "/g", "/g"+s, "/g"+s)
+	case "c":
+		rw = opRServeOr("GET", "c", s, "/g/"+s, "/g/"+s)
+	}
 	return []string{opNew(st, enc, nil), opReg("GET", s, 1), opMatch("GET", s), opMatch("GET", s+"/"), opMatch("GET", "/"+s),
-		opServe("GET", "p", s), opGroup(s), opReg("POST", s, 2), "end", opMatch("POST", s+s), opMatch("POST", s+"/"+s)}
+		opServe("GET", "p", s), rw, opGroup(s), opReg("POST", s, 2), "end", opMatch("POST", s+s), opMatch("POST", s+"/"+s)}
+}
+
+// pathGenServe: a request for the spelling q through ServeHTTP. One in three is sent through a wrapper that
+// rewrites the URL before the router sees it (rserve) in such a way that the router is asked for q (or for
+// something close to it); the rest is served directly.
+func pathGenServe(r *Rand, method string, modes []string, q string) string {
+	if !r.Chance(1, 3) {
+		return opServe(method, r.Pick(modes), q)
+	}
+	query := r.Pick([]string{"", "", "", "?x=1", "?p=/a", "?"})
+	pfx := r.Pick([]string{"/v1", "/g", "/en", "/a", "/a b", "/\u00e9", "/v1/", "/a/b", "/ ", "/."})
+	if r.Chance(1, 4) {
+		pfx = "/" + pathRandString(r, 1, 3)
+	}
+	var op string
+	switch r.Intn(7) {
+	case 0, 1: // mounted below a prefix
+		op = opRServe(method, "s", pfx, pfx+q+query)
+	case 2: // the prefix is a part of q itself
+		if len(q) > 0 {
+			op = opRServe(method, "s", q[:r.Range(1, len(q))], q+query)
+		}
+	case 3, 4: // pre handler drops a leading segment
+		op = opRServe(method, "w", pfx, pfx+q+query)
+	case 5: // pre handler that finds nothing to drop, or drops a part of q
+		op = opRServe(method, "w", r.Pick([]string{pfx, "/", q}), q+query)
+	default: // internal re-dispatch to q from somewhere else
+		op = opRServe(method, "c", q, r.Pick([]string{"/old", pfx, pfx + q, q, "/"})+query)
+	}
+	if op == "" {
+		return opServe(method, r.Pick(modes), q)
+	}
+	return op
 }
 
 func pathRandString(r *Rand, lo, hi int) string {
@@ -300,7 +441,7 @@ func (e *pathEngine) Gen(r *Rand, tier string) Case {
 		}
 		// both slash modes; the path choice alternates with the index (serve is the only op it matters for)
 		for _, st := range []bool{false, true} {
-			ops = append(ops, pathBlockLite(s, st, (e.next%2 == 0) != st)...)
+			ops = append(ops, pathBlockLite(s, st, (e.next%2 == 0) != st, []string{"s", "w", "c"}[(e.next/2)%3])...)
 		}
 		return Case{Ops: ops, Tag: fmt.Sprintf("enumerated-lite-len%d", l)}
 	}
@@ -324,7 +465,7 @@ func (e *pathEngine) Gen(r *Rand, tier string) Case {
 		for i := 0; i < m; i++ {
 			q := pathMutate(r, paths[r.Intn(n)])
 			if r.Chance(1, 3) {
-				ops = append(ops, opServe(r.Pick(methods), r.Pick([]string{"p", "p", "d", "r"}), q))
+				ops = append(ops, pathGenServe(r, r.Pick(methods), []string{"p", "p", "d", "r"}, q))
 			} else {
 				ops = append(ops, opMatch(r.Pick(methods), q))
 			}
@@ -369,7 +510,7 @@ func (e *pathEngine) Gen(r *Rand, tier string) Case {
 				q = pathMutate(r, q)
 			}
 			if r.Chance(1, 4) {
-				ops = append(ops, opServe("GET", r.Pick([]string{"p", "d", "r"}), q))
+				ops = append(ops, pathGenServe(r, "GET", []string{"p", "d", "r"}, q))
 			} else {
 				ops = append(ops, opMatch("GET", q))
 			}
@@ -386,7 +527,7 @@ func (e *pathEngine) Gen(r *Rand, tier string) Case {
 			if r.Bool() {
 				ops = append(ops, opMatch("GET", q))
 			} else {
-				ops = append(ops, opServe("GET", r.Pick([]string{"p", "d", "r"}), q))
+				ops = append(ops, pathGenServe(r, "GET", []string{"p", "d", "r"}, q))
 			}
 		}
 		return Case{Ops: ops, Tag: "sampled-intercept"}
@@ -404,6 +545,34 @@ type pathRun struct {
 	ans    []string
 	oracle []string
 	dead   bool // set while skipping the body of a group whose Group() call panicked
+
+	// re-dispatch (rserve kind c): when the op list contains such an op, every router of the run gets the
+	// global middleware `redispatch` at creation (Use inside a group body would add a group handler); it does
+	// nothing unless redir is set. seen* is what the router was given (Path, EscapedPath) by a rewriting op
+	useRedir bool
+	redir    *string
+	seen     bool
+	seenPath string
+	seenEsc  string
+}
+
+func (p *pathRun) probe(next http.Handler) http.Handler {
+	return http.HandlerFunc(func(w http.ResponseWriter, rq *http.Request) {
+		p.seen, p.seenPath, p.seenEsc = true, rq.URL.Path, rq.URL.EscapedPath()
+		next.ServeHTTP(w, rq)
+	})
+}
+
+func (p *pathRun) redispatch(c *rux.Context) {
+	if p.redir == nil {
+		return
+	}
+	to := *p.redir
+	p.redir = nil
+	c.Req.URL.Path, c.Req.URL.RawPath = to, ""
+	p.seen, p.seenPath, p.seenEsc = true, c.Req.URL.Path, c.Req.URL.EscapedPath()
+	p.r.HandleContext(c)
+	c.Abort()
 }
 
 func (p *pathRun) newRouter(f []string) string {
@@ -418,6 +587,9 @@ func (p *pathRun) newRouter(f []string) string {
 		opts = append(opts, rux.InterceptAll(mustUnhx(f[3])))
 	}
 	p.r = rux.New(opts...)
+	if p.useRedir {
+		p.r.Use(p.redispatch)
+	}
 	p.ids = map[*rux.Route]int{}
 	return "ok"
 }
@@ -450,9 +622,46 @@ func (p *pathRun) one(f []string) (res string) {
 			return "bad-op"
 		}
 		req := &http.Request{Method: mustUnhx(f[1]), URL: u, Proto: "HTTP/1.1", ProtoMajor: 1, ProtoMinor: 1, Header: http.Header{}, Host: "example.com"}
+		if raw := mustUnhx(f[3]); f[2] == "p" {
+			if _, err := url.ParseRequestURI(raw); err == nil {
+				req.RequestURI = raw // as net/http's server does
+			}
+		}
 		w := httptest.NewRecorder()
 		p.hit = -1
 		p.r.ServeHTTP(w, req)
+		if p.hit < 0 {
+			return "none"
+		}
+		return fmt.Sprint(p.hit)
+	case f[0] == "rserve" && len(f) == 7:
+		kind, arg := f[2], mustUnhx(f[3])
+		req, ok := pathServerRequest(mustUnhx(f[1]), mustUnhx(f[4]))
+		if !ok {
+			return "bad-op"
+		}
+		var h http.Handler
+		switch kind {
+		case "s":
+			h = http.StripPrefix(arg, p.probe(p.r))
+		case "w":
+			h = p.r.WrapHTTPHandlers(pathPre(arg), p.probe)
+		case "c":
+			if !p.useRedir {
+				return "bad-op" // unreachable: Run sets useRedir when the op list has an rserve of kind c
+			}
+			p.redir = &arg
+			h = p.r
+		default:
+			return "bad-op"
+		}
+		defer func() { p.redir = nil }()
+		w := httptest.NewRecorder()
+		p.hit, p.seen = -1, false
+		h.ServeHTTP(w, req)
+		if !p.seen || hx(p.seenPath) != f[5] || hx(p.seenEsc) != f[6] {
+			return "bad-op"
+		}
 		if p.hit < 0 {
 			return "none"
 		}
@@ -534,6 +743,13 @@ func (p *pathRun) exec(depth int) {
 
 func (*pathEngine) Run(ops []string) (ans []string, oracle []string) {
 	p := &pathRun{r: rux.New(), ids: map[*rux.Route]int{}, ops: ops}
+	for _, op := range ops {
+		if f := strings.Fields(op); len(f) == 7 && f[0] == "rserve" && f[2] == "c" {
+			p.useRedir = true
+			p.r.Use(p.redispatch)
+			break
+		}
+	}
 	p.exec(0)
 	for i, a := range p.ans {
 		if a == "@end" {
